@@ -874,7 +874,12 @@ impl AWorker {
             let _ = guard(|| m.is_empty());
             let _ = run_flavour(&mut m, 0, usize::MAX / 2);
             let _ = guard(|| m.count_of_free_value_piece());
+            let _ = guard(|| m.count_of_free_key_piece());
             let _ = guard(|| m.key_length_stats());
+            let _ = guard(|| m.get_string(&key[..]));
+            let ks: Vec<&[u8]> = cfg.keys.iter().map(|k| &k[..]).collect();
+            let _ = guard(|| m.bulk_get_string(&ks));
+            let _ = guard(|| m.bulk_get(&ks));
         }
         let dropped = guard_plain(move || {
             drop(m);
